@@ -731,3 +731,31 @@ pub fn triv() -> Vec<Vec<u8>> {
     v.push(b";(\")#|\\;\rx\n".to_vec());
     v
 }
+
+/// Lists headed by the symbols that the reader produces for quote shorthands, with arguments
+/// whose printed form would collide with a shorthand (`@a` after `unquote`), in every arity and
+/// frame: a printer that writes shorthands, or special-cases these heads, must still round-trip
+/// (seeds C01-g3, C13-g3).
+pub fn quotation_forms() -> Vec<RV> {
+    let heads = ["quote", "quasiquote", "unquote", "unquote-splicing", "function"];
+    let args = vec![RV::sym("a"), RV::sym("@a"), RV::sym("@"), RV::sym("@@"), RV::kw("@k"), RV::str("@s"), RV::Int(1), RV::Null, RV::list(vec![RV::sym("@a"), RV::sym("b")]), RV::Vector(vec![RV::sym("@a")]), RV::list(vec![RV::sym("unquote"), RV::sym("@a")]), RV::list(vec![RV::sym("quote"), RV::sym("a")])];
+    let mut v = Vec::new();
+    for h in heads {
+        let hs = RV::sym(h);
+        v.push(RV::list(vec![hs.clone()]));
+        for a in &args {
+            let form = RV::list(vec![hs.clone(), a.clone()]);
+            v.push(form.clone());
+            v.push(RV::cons(hs.clone(), a.clone()));
+            v.push(RV::list(vec![hs.clone(), a.clone(), a.clone()]));
+            v.push(RV::append(vec![hs.clone(), a.clone()], RV::sym("t")));
+            v.push(RV::list(vec![RV::sym("x"), form.clone(), RV::sym("y")]));
+            v.push(RV::cons(RV::sym("x"), form.clone()));
+            v.push(RV::Vector(vec![form.clone(), hs.clone()]));
+            v.push(RV::list(vec![hs.clone(), form.clone()]));
+            v.push(RV::list(vec![RV::kw(h), a.clone()]));
+            v.push(RV::list(vec![RV::str(h), a.clone()]));
+        }
+    }
+    v
+}
